@@ -65,14 +65,25 @@ def step (st : St) (op impl : List String) : St × List String :=
     | _ => (st, [])
   | ["meta", side] => ({ st with metas := st.metas ++ [(nat side, kvs impl)] }, [])
   | ["w", dir, si, _seq, ppi, len, hash] =>
-    let ok := match impl with
-      | [n, e] => n == len && e == "nil"
-      | _ => false
-    let bad := match impl with
-      | [n, e] => (e == "nil" && n != len) || (e != "nil" && n != "0")
-      | _ => true
+    let (n, e, after) := match impl with
+      | n :: e :: a :: _ => (n, e, nat a)
+      | [n, e] => (n, e, 0)
+      | _ => ("?", "?", 0)
+    let ok := n == len && e == "nil"
+    let bad := (e == "nil" && n != len) || (e != "nil" && n != "0")
+    let gate := getB st.hdr "block" && ok && after > nat len
     ({ st with writes := st.writes.push (nat dir, nat si, { ppi := nat ppi, len := nat len, hash := nat hash }, ok) },
-      if bad then [s!"[C18] write of {len} bytes returned ({" ".intercalate impl})"] else [])
+      (if bad then [s!"[C18] write of {len} bytes returned ({n}, {e})"] else []) ++
+      (if gate then [s!"[C18] blocking write of {len} bytes returned while {after} bytes (more than its own) were still waiting in the pending queue"] else []))
+  | ["wbad", kind, dir, si, len, hash] =>
+    let v := match impl with
+      | [n, e] =>
+        if n != "0" then [s!"[C18] {kind} write on side {dir} stream {si} reported {n} bytes written"]
+        else if kind != "empty" && e == "nil" then [s!"[C18] {kind} write on side {dir} stream {si} was not rejected"]
+        else []
+      | _ => []
+    ({ st with lateHashes := if kind == "closedstream" then nat hash :: st.lateHashes else st.lateHashes,
+               badLens := if kind == "closedstream" then nat len :: st.badLens else st.badLens }, v)
   | ["r", side, si, ppi, len, hash] =>
     ({ st with reads := st.reads.push (nat side, nat si, { ppi := nat ppi, len := nat len, hash := nat hash }) }, [])
   | ["tx", from_, idx, t, len, fate] =>
